@@ -141,13 +141,10 @@ def logging_config(name):
     elif name == "no-handlers":
         lg["loggers"]["cminx"]["handlers"] = []
         lg["root"]["handlers"] = []
-    elif name == "logger-unconfigured":
-        del lg["loggers"]["cminx"]
-        lg["root"]["level"] = "WARNING"
     return yaml.safe_dump({"logging": lg})
 
 
-LOGCFG = ["logger-info", "logger-warning", "logger-critical", "console-error", "no-handlers", "logger-unconfigured"]
+LOGCFG = ["logger-info", "logger-warning", "logger-critical", "console-error", "no-handlers"]
 
 
 def cli_logging(job):
